@@ -2,6 +2,7 @@ package formatter
 
 import (
 	"bytes"
+	"strings"
 
 	"github.com/ysugimoto/falco/v2/ast"
 )
@@ -563,7 +564,7 @@ func (f *Formatter) formatReturnStatement(stmt *ast.ReturnStatement) string {
 	buf.Reset()
 	buf.WriteString("return")
 	if stmt.ReturnExpression != nil {
-		if v := f.formatComment(stmt.ParenthesisLeadingComments, "", 0); v != "" {
+		if v := strings.TrimSpace(f.formatComment(stmt.ParenthesisLeadingComments, " ", 0)); v != "" {
 			buf.WriteString(" " + v)
 		}
 		prefix := " "
@@ -579,7 +580,7 @@ func (f *Formatter) formatReturnStatement(stmt *ast.ReturnStatement) string {
 		// which drops operators and decodes string escapes
 		buf.WriteString(f.formatExpression(stmt.ReturnExpression).String())
 		buf.WriteString(suffix)
-		if v := f.formatComment(stmt.ParenthesisTrailingComments, "", 0); v != "" {
+		if v := strings.TrimSpace(f.formatComment(stmt.ParenthesisTrailingComments, " ", 0)); v != "" {
 			buf.WriteString(" " + v)
 		}
 	} else {
